@@ -207,6 +207,20 @@ func (env *Env) eval(ex Expr) (TV, error) {
 		if n.Op == "!" {
 			return TV{not(xv.T), tyBool}, nil
 		}
+		if n.Op == "*" {
+			t, ok := goType(xv)
+			if !ok {
+				return TV{}, fmt.Errorf("* of a non-Go value")
+			}
+			pt, ok := t.Underlying().(*types.Pointer)
+			if !ok {
+				return TV{}, fmt.Errorf("* of a non-pointer %s", typeStr(t))
+			}
+			f := e.ptrFam(pt.Elem())
+			v := fmt.Sprintf("(select %s %s)", e.get(env.st, f), xv.T)
+			env.readWF(v, pt.Elem())
+			return TV{v, pt.Elem()}, nil
+		}
 		return TV{"(- " + xv.T + ")", xv.Ty}, nil
 	case *Cond:
 		c, err := env.eval(n.C)
@@ -923,6 +937,15 @@ func (env *Env) evalCall(n *Call) (TV, error) {
 		return TV{fmt.Sprint(e.S.typeID(t)), tyInt}, nil
 	case "tid":
 		return TV{"(tid " + args[0].T + ")", tyInt}, nil
+	case "isfunc":
+		// the dynamic type of an interface value is a function type
+		var alts []Term
+		for _, id := range sortedTypeIDs(e.S) {
+			if _, ok := e.S.typeByID[id].Underlying().(*types.Signature); ok {
+				alts = append(alts, fmt.Sprintf("(= (tid %s) %d)", args[0].T, id))
+			}
+		}
+		return TV{and(fmt.Sprintf("((_ is VRef) %s)", args[0].T), or(alts...)), tyBool}, nil
 	case "isnil":
 		return TV{fmt.Sprintf("((_ is VNil) %s)", args[0].T), tyBool}, nil
 	case "isstr":
@@ -1026,4 +1049,12 @@ func flattenName(ex Expr) string {
 		return n.V
 	}
 	return "?"
+}
+
+func sortedTypeIDs(s *sorts) []int {
+	var out []int
+	for i := 1; i < len(s.typeByID); i++ {
+		out = append(out, i)
+	}
+	return out
 }
